@@ -79,14 +79,13 @@ Proof. exact refuted_stale_env. Qed.
 
 (** Inside the guard (direct requests; environment variables naming settings
     every collection defines) the views on entry and exit of every body are
-    the reference, and nothing escapes, on each of 84 request sequences (1-3
-    requests over names, an alias-free default shortcut and three
-    collections) x 7 first-body edit scripts (writes, deletions of a setting
+    the reference, and nothing escapes, on each of 28 request sequences (1-3
+    requests over names, a default shortcut and three collections) x 7 first-body edit scripts (writes, deletions of a setting
     and of a whole section, pop, write-delete-write, attribute syntax) x 4
-    environment schedules = 2352 sessions.  A TEST, not the property. *)
-Theorem C19_task_view_bounded_2352 :
+    environment schedules = 784 sessions.  A TEST, not the property. *)
+Theorem C19_task_view_bounded_784 :
   sweep = true /\
-  List.length req_seqs = 84 /\ List.length edits = 7 /\ List.length env_schedules = 4.
+  List.length req_seqs = 28 /\ List.length edits = 7 /\ List.length env_schedules = 4.
 Proof. split; [exact view_bounded | exact sweep_size]. Qed.
 
 (** Non-vacuity: in the sweep's tree the three tasks live in three collections
